@@ -353,6 +353,88 @@ def class_space(tier: str) -> Iterator[Tuple[List[tuple], bool]]:
 BATCH = 40
 
 
+SKIP_SRC = """
+@dataclass
+class Sk:
+    a: int = 0
+    s: int = field(default=0, metadata=skip(serialization=True))      # deserialized, never serialized
+    d: int = field(default=5, metadata=skip(deserialization=True))    # serialized, never deserialized
+    f: List[int] = field(default_factory=list, metadata=skip(serialization=True))   # the same with a default factory (never given below)
+    CALLS = []
+    @validator
+    def chk_s(self):
+        Sk.CALLS.append(("chk_s", self.s))
+        if self.s > 0:
+            raise ValidationError("s is positive")
+    @validator
+    def chk_f(self):
+        Sk.CALLS.append(("chk_f", list(self.f), self.a))
+        if len(self.f) == self.a:
+            raise ValidationError("len(f) equals a")
+    @validator
+    def chk_both(self):
+        Sk.CALLS.append(("chk_both", self.s, self.a))
+        if self.s == self.a:
+            raise ValidationError("s equals a")
+"""
+
+
+def run_skipped_fields(st):
+    """validators reading a field skipped in one direction only: a field with skip(serialization=True) is deserialized like
+    any other (the validator sees its value, also when another field is invalid and the validator runs on the partial object);
+    a field with skip(deserialization=True) is never read from the data"""
+    mod = exec_source(PRELUDE + SKIP_SRC)
+    Sk = mod.Sk
+    try:
+        for a in (0, 1, "bad", None):          # None: absent
+            for s_ in (0, 1, "bad", None):
+                for d in (None, 7):
+                    datum = {}
+                    if a is not None:
+                        datum["a"] = a
+                    if s_ is not None:
+                        datum["s"] = s_
+                    if d is not None:
+                        datum["d"] = d
+                    va, vs = (0 if a is None else a), (0 if s_ is None else s_)
+                    exp = []
+                    if a == "bad":
+                        exp.append((("a",), "expected type integer, found string"))
+                    if s_ == "bad":
+                        exp.append((("s",), "expected type integer, found string"))
+                    if d is not None:
+                        exp.append((("d",), "unexpected property"))
+                    exp_calls = []
+                    # a validator runs when none of the fields it reads is invalid and at least one of them was given
+                    if s_ not in ("bad", None):
+                        exp_calls.append(("chk_s", vs))
+                        if vs > 0:
+                            exp.append(((), "s is positive"))
+                    if a not in ("bad", None):
+                        exp_calls.append(("chk_f", [], va))
+                        if va == 0:
+                            exp.append(((), "len(f) equals a"))
+                    if s_ != "bad" and a != "bad" and (s_ is not None or a is not None):
+                        exp_calls.append(("chk_both", vs, va))
+                        if vs == va:
+                            exp.append(((), "s equals a"))
+                    del Sk.CALLS[:]
+                    st.case("skipped_fields", repr(a), repr(s_), d)
+                    try:
+                        apischema.deserialize(Sk, datum)
+                        got = []
+                    except apischema.ValidationError as e:
+                        got = [(tuple(x["loc"]), x["err"]) for x in e.errors]
+                    except Exception as e:
+                        st.violation({"signature": {"kind": "non_termination_or_crash", "exc": type(e).__name__, "world": "skipped_fields"}, "what": f"Sk <- {datum}: {e!r}"[:300]})
+                        continue
+                    if sorted(got) != sorted(exp) or sorted(Sk.CALLS, key=repr) != sorted(exp_calls, key=repr):
+                        st.violation({"signature": {"kind": "validators_mismatch", "world": "skipped_fields"}, "what": f"Sk <- {datum}: errors {sorted(got)} validator calls {Sk.CALLS}; expected {sorted(exp)} / {exp_calls}"[:500]})
+    finally:
+        sys.modules.pop(mod.__name__, None)
+        apischema.cache.reset()
+
+
 def work(tier, widx, nworkers, st, extra):
     sys.setrecursionlimit(300)
     signal.signal(signal.SIGALRM, _alarm)
@@ -383,6 +465,13 @@ def work(tier, widx, nworkers, st, extra):
         apischema.cache.reset()
         batch.clear()
 
+    if widx == 0:
+        try:
+            run_skipped_fields(st)
+        except Exception:
+            import traceback
+
+            st.violation({"signature": {"kind": "harness_error"}, "harness_error": True, "what": "skipped fields", "traceback": traceback.format_exc()[-2000:]})
     for i, c in enumerate(class_space(tier)):
         if (i // BATCH) % nworkers != widx:
             continue
